@@ -12,7 +12,7 @@ RULE = ("bin()/hex()/base_repr() of an object holding a given code vs string ima
         "with and without binary point) and raw=True mode (every n_word); the restored code must equal the original. Generated: every code of every format with n_word<=8 and every n_frac 0..n_word; boundary and "
         "random codes for n_word in {15,16,17,31,32,33,53,63,64,65,100,128,256} and random widths; scalars, 1-d and 2-d arrays. Non-trivial = negative code, or n_word not a multiple of 4, or n_frac in {0, n_word}; "
         "distinct = distinct (format, code/array, option) keys.")
-ASSUMPTIONS = ['objects are created from raw codes', 'signed formats need n_word>=2 for parsing (a 1-bit signed literal is rejected by the parser by design)', "strings are fed back with the prefixes the parser documents ('0b', '0x') or bare through from_bin; upper-case / 'h' prefixes are rendering options only (the parser rejects them with ValueError)"]
+ASSUMPTIONS = ['objects are created from raw codes', 'signed formats need n_word>=2 for parsing (a 1-bit signed literal is rejected by the parser by design)', "strings are fed back with the prefixes the parser recognises ('0b', 'b', '0x', '0h') or bare through from_bin; upper-case / 'h' prefixes are rendering options only (the parser rejects them with ValueError)"]
 EXHAUSTIVE = False    # the whole quantifier is not enumerated; complete sub-domains are listed in EXHAUSTIVE_SUBDOMAINS
 EXHAUSTIVE_SUBDOMAINS = {'quick': ['all codes x all n_frac 0..n_word for n_word<=8, both signednesses: rendering + all parse routes'], 'thorough': ['same for n_word<=10']}
 REQUIRED_CLASSES = {'negative': 500, 'wide>=64': 200, 'array': 200, 'array2d': 50, 'array:w54-63': 30, 'configured-prefix': 500}
@@ -92,14 +92,18 @@ def check_scalar(ctx, case):
         return
     lib_bin, lib_hex, lib_dot = x.bin(), x.hex(), x.bin(frac_dot=True)
     texts = [('lib-bin', '0b' + lib_bin, True, True), ('lib-hex', lib_hex, False, True), ('lib-bin-0b', x.bin(prefix='0b'), True, True),
-             ('model-bin', '0b' + M.bin_image(k, w), True, True), ('model-hex', M.hex_image(k, w), False, True)]
+             ('model-bin', '0b' + M.bin_image(k, w), True, True), ('model-hex', M.hex_image(k, w), False, True),
+             # the short prefixes the parser also recognises: 'b' (binary) and '0h' (hex)
+             ('lib-bin-b', x.bin(prefix='b'), True, True), ('lib-hex-0h', x.hex(prefix='0h'), False, True)]
     if 0 < f < w:
         # the rendering with the binary point, fed back as a raw value: the digits are the code, wherever the point sits
         texts.append(('lib-bin-dot-raw', '0b' + lib_dot, True, True))
+        texts.append(('lib-bin-dot-b-raw', x.bin(frac_dot=True, prefix='b'), True, True))
     if w <= 53:
-        texts += [('lib-bin-value', '0b' + lib_bin, True, False), ('lib-hex-value', lib_hex, False, False)]
+        texts += [('lib-bin-value', '0b' + lib_bin, True, False), ('lib-hex-value', lib_hex, False, False), ('lib-bin-b-value', 'b' + lib_bin, True, False)]
         if 0 < f < w:
             texts.append(('lib-bin-dot-value', '0b' + lib_dot, True, False))
+            texts.append(('lib-bin-dot-b-value', 'b' + lib_dot, True, False))
     for tname, text, is_bin, raw in texts:
         for rname, thunk in parse_routes(F, fmt, text, raw, is_bin):
             psig = '%s/parse/%s/%s' % (sig, tname, rname)
@@ -170,6 +174,7 @@ def check_array(ctx, case):
     import fxpmath
     feeds = [('lib-bin', lib_bin0, lib_bin), ('lib-hex', lib_hex, None), ('model-bin', want_bin0, want_bin), ('model-hex', want_hex, None),
              ('lib-bin-dot', x.bin(frac_dot=True, prefix='0b'), x.bin(frac_dot=True)),
+             ('lib-bin-dot-b', x.bin(frac_dot=True, prefix='b'), None), ('lib-bin-b', x.bin(prefix='b'), None),
              # the same texts held by a numpy array of strings (what bin()/hex() of a 2-d object return row by row)
              ('ndarray-bin', np.array(want_bin0), np.array(want_bin)), ('ndarray-hex', np.array(want_hex), None)]
     for tname, text, bare in feeds:
